@@ -158,7 +158,7 @@ void h_pop(void) {
       XV_OBL("nbq.own.exactly_once", g_destroyed[i] == (i == e) && g_movedout[i] == (i == e) && g_constructed[i] == 0);
     }
     /* the cell is claimed (allocated dequeue), moved out, destroyed, and only then handed back through the free ring */
-    XV_OBL("nbq.pop.release_order", q._allocated_queue.t_deq < g_t_moveout && g_t_moveout < g_t_destroy && g_t_destroy < q._free_queue.t_enq && q._free_queue.n_enq == 1 && q._allocated_queue.n_deq == 1);
+    XV_OBL("nbq.pop.destroy_before_release", q._allocated_queue.t_deq < g_t_moveout && g_t_moveout < g_t_destroy && g_t_destroy < q._free_queue.t_enq && q._free_queue.n_enq == 1 && q._allocated_queue.n_deq == 1);
     XV_CANARY("pop.took"); if (in_na == CAP) XV_CANARY("pop.from_full");
   }
 }
